@@ -12,9 +12,12 @@ CHECKS = {
  'C03': (K1 + "; hostile-input exploration of every exported entry point for the unmodelled engines", "Totality theorems for the modelled leaf routines (C03_trim_total, C03_minkowski_total, C03_pip_total, C03_precision_total) for all inputs; for the sweep, the offsetter and the rectangle clipper totality is observed under recover/time-limit/success-flag on a hostile stream covering all API groups and enum values (PARTIAL).", "4.3", "coq-k1"),
  'C06': (REGION, "Theorem C06_rect: accepted (input, output, rectangle) triples have output winding = input winding inside and 0 outside the rectangle at every real point away from the band; vertex bound, inside-unchanged, outside-vanishes and the driver decided directly.", "4.6", "coq-region"),
  'C08': (K1 + "; " + REGION, "Theorems C08_total/C08_count/C08_quads_closed/C08_quads_positive about the faithful model of minkowskiInternal (all inputs); C08_region: accepted results equal the union of the swept parallelograms at every real point farther than 2 from every parallelogram edge; canonical form and sum(A,B)=sum(B,A) certified likewise. PARTIAL near interior parallelogram edges (DESIGN 4.8).", "4.8", "coq-region"),
+ 'C13': (K1 + "; " + REGION, "Theorems C13_* (all int64 inputs): the computed cross product is the exact one mod 2^64, translation invariance of cross product / collinearity / area accumulator with no range hypothesis, exactness from coordinate differences, the exact (tight) coordinate range 2^30.5 of CrossProduct, and machine-checked wrong signs inside the advertised 2^61; translated and scaled runs certified by the proved region checker.", "4.13", "coq-region"),
  'C14': (K1, "Theorems C14_* for all inputs within 2^29: Area64/IsPositive64 exact when the doubled area is below 2^63 (and machine-checked refutation beyond), GetBounds64 exact, 128-bit product exact, isCollinear exact except when a coordinate difference is 1 (refutations proved), CrossProduct sign exact, PointInPolygon total and equal to the exact even-odd specification on an exhaustively enumerated scope (partial beyond, tied by correspondence).", "4.14", "coq-k1"),
  'C15': (K1, "Theorems C15_* about Model/Trim.v for all paths (totality, sub-sequence, open ends, removed-only-collinear, area preservation for sound predicates) and machine-checked refutations of the clauses that are false (idempotence, no collinear triple, >= 3 vertices); model tied to the code by exact comparison incl. all paths <= 4 points on the 3x3 lattice.", "4.15", "coq-k1"),
+ 'C16': (K1, "Theorems C16_* about the parametric model of the greedy loop for every distance function (totality, short paths, sub-sequence, open ends, post-condition on every retained vertex) instantiated with a float-faithful distance; the instance is compared exactly with SimplifyPath64 and SimplifyPathD on every run; translation/scaling invariance of the retained set and the epsilon-0 area clause decided on the outputs.", "4.16", "coq-k1"),
  'C17': (REGION, "Respelling invariance of the specification proved for all path sets and real points (C17_permute_paths ... C17_translate); outputs of respelt inputs certified region-equal by the proved checker (C17_same_region); determinism observed by double calls.", "4.17", "coq-region"),
+ 'C18': ("Coq theorems over facts regenerated from the source text on every run (K3) + abstract interleaving theorem + go test -race exploration", "C18_package_level_state_never_written / C18_no_concurrency_primitives are reflexivity over lists the scanner regenerates from /repo on every run; C18_interleaving_is_sequential: every schedule gives each call its sequential result when calls write only private state. Data-race freedom of compiled Go is exercised under -race, not proved (PARTIAL).", "4.18", "coq-k3"),
  'C19': (REGION, "Theorem C19_identities: the five outputs accepted by the checker satisfy the set identities at every real point away from the input edges; C19_from_C01 (Boolean algebra); exact integer area identities and the wrapper clause decided directly.", "4.19", "coq-region"),
 }
 
@@ -35,6 +38,8 @@ def main():
         "engines": [
             {"name": "coq-region", "path": "coq/Cert", "serves_properties": sorted(k for k, v in CHECKS.items() if v[3] == 'coq-region'),
              "kind_free_text": "Coq-proved sound region checker (Cert/Region.v, RegionSound.v), extracted to OCaml, fed with the implementation's outputs by the Go harness"},
+            {"name": "coq-k3", "path": "coq/Gen", "serves_properties": sorted(k for k, v in CHECKS.items() if v[3] == 'coq-k3'),
+             "kind_free_text": "models regenerated from /repo's source text on every run by harness/scan.go and harness/translate.go, with Coq theorems re-checked against the regenerated terms"},
             {"name": "coq-k1", "path": "coq/Model", "serves_properties": sorted(k for k, v in CHECKS.items() if v[3] == 'coq-k1'),
              "kind_free_text": "faithful Gallina models of leaf routines with for-all theorems; extracted and compared with the Go functions"},
         ],
